@@ -3,6 +3,7 @@
 package corerad
 
 import (
+	"fmt"
 	"context"
 	"math/rand"
 	"net/netip"
@@ -153,6 +154,7 @@ func verifC05(t *testing.T, r *vfh.Rand, out *vfh.Out) {
 }
 
 func c05Loop(t *testing.T, out *vfh.Out, min, max time.Duration, waits int) {
+	out.Pending(fmt.Sprintf("c05Loop min=%v max=%v waits=%d", min, max, waits))
 	synctest.Test(t, func(t *testing.T) {
 		a := NewAdvertiser(NewContext(nil, nil, nil), config.Interface{
 			Name: "vf0", MinInterval: min, MaxInterval: max, Advertise: true,
